@@ -171,6 +171,17 @@ Theorem set_max_keeps_reason :
               onmax (set_max_execution_steps t n) = onmax t.
 Proof. intros t n. repeat split. Qed.
 
+(* A client OnMaxSteps hook that cancels the thread (whatever its reason) stops the
+   loop at every head at which Steps >= maxSteps -- also when the counter has
+   jumped past the limit (a re-used thread given a lower limit, a built-in that
+   charges steps) and never equals it. *)
+Theorem hook_enforced :
+  forall t h t' cr,
+    onmax t = Some h -> (forall c, h c <> None) ->
+    maxSteps t <= (steps t + 1) mod two64 ->
+    loop_head t = (t', cr) -> cr <> None.
+Proof. exact hook_enforced_lemma. Qed.
+
 (* ---- non-vacuity: the hypotheses hold on concrete, non-trivial inputs ---- *)
 
 (* `while True: b()` (4 ordinary instructions, then a built-in, for ever) under
@@ -215,3 +226,9 @@ Example first_reason_example :
   first_reason [CCancel 1; CCancel 2; CUncancel] = None /\
   first_reason [CCancel 1; CCancel 2; CUncancel; CCancel 3; CCancel 4] = Some 3.
 Proof. vm_compute. repeat split. Qed.
+
+Example hook_premises_hold :
+  let t := set_onmax (mkThread 500 100 None true None) (Some (cancel_hook 4)) in
+  onmax t = Some (cancel_hook 4) /\ (forall c, cancel_hook 4 c <> None) /\
+  maxSteps t <= (steps t + 1) mod two64 /\ snd (loop_head t) = Some 4.
+Proof. repeat split; try (intros [x|]; discriminate); vm_compute; congruence. Qed.
